@@ -394,7 +394,7 @@ func TestClientVerificationMutations(t *testing.T) {
 	f := clientFix(t)
 	ops := clientOps()
 	ctx := context.Background()
-	vk.Check(t, 6000, 200000, func(rt *rapid.T, c *vk.Case) {
+	vk.Check(t, 6000, 120000, func(rt *rapid.T, c *vk.Case) {
 		op := ops[rapid.IntRange(0, len(ops)-1).Draw(rt, "op")]
 		trusted := rapid.IntRange(1, len(f.states)).Draw(rt, "trustedTx")
 		f.st.mu.Lock()
